@@ -102,13 +102,26 @@ def build():
             if m:
                 bad.append(f"{p.relative_to(LEAN)}: {m.group(0).strip()}")
         # axiom audit
-        names = sorted({n for lst in THEOREMS.values() for n, _ in lst} | set(_cert_names()))
-        audit = LEAN / ".lake" / "Audit.lean"
-        audit.parent.mkdir(exist_ok=True)
-        audit.write_text("import XonshVerif\nimport XonshCerts\n" + "".join(f"#print axioms {n}\n" for n in names))
-        pa = subprocess.run(["lake", "env", "lean", str(audit)], cwd=LEAN, capture_output=True, text=True, timeout=1800)
+        # one audit file per importable unit, so that a certificate module that no longer builds (e.g. an `*_expected`
+        # certificate after a change of the grammar) does not take the unrelated theorems down with it
+        units = {"XonshVerif": sorted({n for lst in THEOREMS.values() for n, _ in lst})}
+        for f in sorted((LEAN / "XonshCerts").glob("*.lean")):
+            units["XonshCerts." + f.stem] = _cert_names(f)
+        (LEAN / ".lake").mkdir(exist_ok=True)
+        (LEAN / ".lake" / "Audit.lean").write_text("".join(f"import {u}\n" for u in units) + "".join(f"#print axioms {n}\n" for ns in units.values() for n in ns))
+
+        def audit_unit(item):
+            unit, ns = item
+            f = LEAN / ".lake" / f"Audit_{unit.replace('.', '_')}.lean"
+            f.write_text(f"import {unit}\n" + "".join(f"#print axioms {n}\n" for n in ns))
+            q = subprocess.run(["lake", "env", "lean", str(f)], cwd=LEAN, capture_output=True, text=True, timeout=1800)
+            return q.stdout + q.stderr
+
+        from concurrent.futures import ThreadPoolExecutor
+
+        with ThreadPoolExecutor(8) as ex:
+            txt = "\n".join(ex.map(audit_unit, units.items()))
         axioms = {}
-        txt = pa.stdout + pa.stderr
         for m in re.finditer(r"'([^']+)' depends on axioms: \[([^\]]*)\]", txt):
             axioms[m.group(1)] = [a.strip() for a in m.group(2).replace("\n", " ").split(",") if a.strip()]
         for m in re.finditer(r"'([^']+)' does not depend on any axioms", txt):
@@ -121,9 +134,9 @@ def build():
         lock.close()
 
 
-def _cert_names():
+def _cert_names(only=None):
     names = []
-    for f in sorted((LEAN / "XonshCerts").glob("*.lean")) if (LEAN / "XonshCerts").exists() else []:
+    for f in ([only] if only else sorted((LEAN / "XonshCerts").glob("*.lean")) if (LEAN / "XonshCerts").exists() else []):
         for m in re.finditer(r"^theorem\s+(\S+)", strip_comments(f.read_text()), re.M):
             names.append("XVC." + m.group(1) if not m.group(1).startswith("XVC.") else m.group(1))
     return names
